@@ -308,7 +308,7 @@ Definition expand_block1 (b : ebody) (s : schema1) (partial : bool) (d : ditem) 
       end
   | DBlock t ls body =>
       if existsb (fun h => str_eqb t (fst h)) (eb_hblocks b) then xres_nil
-      else ([mkXB t ls (XE (expand_child b body (eb_iter b) []))], false, false)
+      else ([mkXB t ls (XE (expand_child b body (eb_iter b) (eb_marks b)))], false, false)
   end.
 
 Definition expand_blocks (b : ebody) (s : schema1) (partial : bool) (raw : list ditem) : xres :=
@@ -324,8 +324,8 @@ Definition eb_partial_content (s : schema1) (b : ebody) : xcontent * ebody :=
   let '(rattrs, rblocks, nerr) := native_partial (extend_schema b s) (eb_orig b) in
   let '(blocks, berr, unsup) := expand_blocks b s true rblocks in
   (mkXC (prepare_attributes b rattrs) blocks (nerr || berr) unsup,
-   (* remain: valueMarks is not copied *)
-   mkEB (eb_orig b) (eb_fctx b) (eb_iter b) []
+   (* remain *)
+   mkEB (eb_orig b) (eb_fctx b) (eb_iter b) (eb_marks b)
         (eb_hattrs b ++ map fst (s_attrs s))
         (eb_hblocks b ++ s_blocks s)).
 
